@@ -53,7 +53,11 @@ EXPLANATION = (
     "also through locals, count-preserving maps and the binder class's own "
     "one-line method (SignedFunction.argcount, whose overrides in subclasses "
     "must agree; InterpreterFunction.argcount reads code.argcount, which "
-    "blocks.OrderedCode copies from CPython's co_argcount); a capacity that "
+    "blocks.OrderedCode copies from CPython's co_argcount; an override that "
+    "returns an instance attribute `self.X` is classified by the single "
+    "binding `self.X = E` in the methods of the binder class and its "
+    "subclasses - code.argcount + code.kwonlyargcount counts all named "
+    "parameters; no or several bindings is an analysis error); a capacity that "
     "also counts keyword-only parameters (len(pytd_sig.params), "
     "len(param_names + kwonly_params), a list built per pytd parameter) or "
     "only the positional-only ones is a violation, any other expression an "
@@ -1369,6 +1373,13 @@ def _count_class(ctx, binder, canon, expr, stmt, depth=0):
   d = dotted(expr) or ""
   if canon is None and d.startswith("self.code.") and d.count(".") == 2:
     return _code_counter(ctx, d.split(".")[2])
+  # self.<attr>: an instance attribute of the function object with exactly one
+  # binding `self.<attr> = E` in the binder's class or a subclass of it
+  if canon is None and d.startswith("self.") and d.count(".") == 1:
+    v = _instance_counter(ctx, binder, d.split(".")[1])
+    if v is None:
+      return None
+    return _count_class(ctx, binder, None, v[0], v[1], depth + 1)
   # self.<method>(..): the method of the binder's own class, one `return E`
   if isinstance(expr, ast.Call) and isinstance(expr.func, ast.Attribute) and \
       dotted(expr.func.value) == "self" and canon is not None:
@@ -1425,6 +1436,39 @@ def _code_counter(ctx, attr):
   if isinstance(v, ast.Attribute) and isinstance(v.value, ast.Name):
     return _CO_COUNTERS.get(v.attr)
   return None
+
+
+def _instance_counter(ctx, binder, attr):
+  """(value, statement) of the only binding of self.<attr> in the methods of
+  the binder's class and of its subclasses (modules of the two binders'
+  function classes); None when it is bound at no or several places, or
+  rebound by an augmented assignment / deleted."""
+  sites = []
+  for rel in sorted({binder.rel, IF}):
+    m = get_module(ctx, rel)
+    for cname in m.classes:
+      if cname != binder.receiver and not _derives_from(m, cname, binder.receiver):
+        continue
+      for meth in m.methods(cname).values():
+        for n in ast.walk(meth):
+          if isinstance(n, ast.Assign):
+            tgts = []
+            for t in n.targets:
+              tgts.extend(t.elts if isinstance(t, (ast.Tuple, ast.List)) else [t])
+            if any(dotted(t) == f"self.{attr}" for t in tgts):
+              if len(n.targets) != 1 or n.targets[0] not in tgts:
+                return None
+              sites.append((n.value, n))
+          elif isinstance(n, (ast.AugAssign, ast.AnnAssign)) and \
+              dotted(n.target) == f"self.{attr}":
+            if isinstance(n, ast.AnnAssign) and n.value is not None:
+              sites.append((n.value, n))
+            else:
+              return None
+          elif isinstance(n, ast.Delete) and \
+              any(dotted(t) == f"self.{attr}" for t in n.targets):
+            return None
+  return sites[0] if len(sites) == 1 else None
 
 
 def _derives_from(mod, cname, root, seen=()):
@@ -1715,6 +1759,29 @@ VARIANTS = [
     {"name": "twin-interp-capacity-inlined", "rule": "R13.5", "file": FB, "expect": "silent",
      "old": "    elif len(posargs) > self.argcount(node):",
      "new": "    elif len(posargs) > len(sig.param_names):"},
+    {"name": "seeded-C13-r4m2", "rule": "R13.5", "patch": "seeded/C13-r4m2/patch.diff", "expect": "fire"},
+    {"name": "interp-override-sums-code-counters", "rule": "R13.5", "file": IF, "expect": "fire",
+     "old": "  def argcount(self, _) -> int:\n    return self.code.argcount\n",
+     "new": "  def argcount(self, _) -> int:\n    return self.code.argcount + self.code.kwonlyargcount\n"},
+    {"name": "interp-override-counts-signature-kwonly", "rule": "R13.5", "file": IF, "expect": "fire",
+     "old": "  def argcount(self, _) -> int:\n    return self.code.argcount\n",
+     "new": "  def argcount(self, _) -> int:\n    return len(self.signature.param_names) + len(self.signature.kwonly_params)\n"},
+    {"name": "interp-override-reads-posonly-attribute", "rule": "R13.5", "file": IF, "expect": "fire",
+     "old": "  def argcount(self, _) -> int:\n    return self.code.argcount\n",
+     "new": "  def argcount(self, _) -> int:\n    return self.posonlyarg_count\n"},
+    {"name": "twin-interp-override-from-signature", "rule": "R13.5", "file": IF, "expect": "silent",
+     "old": "  def argcount(self, _) -> int:\n    return self.code.argcount\n",
+     "new": "  def argcount(self, _) -> int:\n    return len(self.signature.param_names)\n"},
+    {"name": "twin-interp-override-reads-own-attribute", "rule": "R13.5", "expect": "silent",
+     "edits": [(IF, "  def argcount(self, _) -> int:\n    return self.code.argcount\n",
+                "  def argcount(self, _) -> int:\n    return self._positional_count\n"),
+               (IF, "    self.posonlyarg_count = self.code.posonlyargcount\n",
+                "    self.posonlyarg_count = self.code.posonlyargcount\n    self._positional_count = self.code.argcount\n")]},
+    {"name": "interp-override-attribute-bound-twice", "rule": "R13.5", "expect": "error",
+     "edits": [(IF, "  def argcount(self, _) -> int:\n    return self.code.argcount\n",
+                "  def argcount(self, _) -> int:\n    return self._positional_count\n"),
+               (IF, "    self.posonlyarg_count = self.code.posonlyargcount\n",
+                "    self.posonlyarg_count = self.code.posonlyargcount\n    self._positional_count = self.code.argcount\n    if overloads:\n      self._positional_count = self.nonstararg_count\n")]},
     {"name": "twin-pytd-capacity-renamed-via-tuple", "rule": "R13.5", "expect": "silent",
      "edits": [(PF, "    num_expected_posargs = len(self.signature.param_names)\n    if len(args.posargs) > num_expected_posargs and",
                 "    positional_names = tuple(self.signature.param_names)\n    num_expected_posargs = len(positional_names)\n    if num_expected_posargs < len(args.posargs) and")]},
